@@ -1016,6 +1016,11 @@ class segment_if(x12_node):
             (bResult, err_str) = is_syntax_valid(seg_data, syn)
             if not bResult:
                 syn_type = syn[0]
+                syn_node = self.get_child_node_by_ordinal(syn[1])
+                if syn_node is None:
+                    # The note points beyond the elements this map defines
+                    syn_node = self.children[-1]
+                errh.add_ele(syn_node)
                 if syn_type == 'E':
                     errh.ele_error('10', err_str, None, syn[1])
                 else:
